@@ -178,7 +178,7 @@ impl Transform for Ellipse {
 pub(in crate::primitives) struct EllipseContains {
     a: u32,
     b: u32,
-    threshold: u32,
+    threshold: u64,
 }
 
 impl EllipseContains {
@@ -192,10 +192,13 @@ impl EllipseContains {
         let b = height.pow(2);
 
         // Special case for circles, where width and height are equal
+        //
+        // The product of the squared width and height doesn't fit into an `u32` for larger
+        // ellipses and is stored as an `u64`.
         let threshold = if width == height {
-            circle::diameter_to_threshold(width)
+            circle::diameter_to_threshold(width) as u64
         } else {
-            b * a
+            b as u64 * a as u64
         };
 
         Self { a, b, threshold }
@@ -203,14 +206,14 @@ impl EllipseContains {
 
     /// Returns `true` if the point is inside the ellipse.
     pub const fn contains(&self, point: Point) -> bool {
-        let x = point.x.pow(2) as u32;
-        let y = point.y.pow(2) as u32;
+        let x = point.x.pow(2) as u64;
+        let y = point.y.pow(2) as u64;
 
         // Special case for circles, where width and height are equal
         if self.a == self.b {
             x + y < self.threshold
         } else {
-            self.b * x + self.a * y < self.threshold
+            self.b as u64 * x + self.a as u64 * y < self.threshold
         }
     }
 }
